@@ -57,6 +57,57 @@ pub fn respell(text: &str, spelling: &str) -> String {
 
 /// C17 over one document: every channel x spelling must agree with (str, plain)
 fn channels<T: DeserializeOwned + PartialEq + Debug>(text: &str) -> (bool, Option<String>, Option<T>) {
+    channels_x::<T>(text, None)
+}
+
+type ExtraChannel<'a, T> = Option<(&'a str, &'a dyn Fn(&str) -> Result<Result<T, String>, String>)>;
+
+/// texts in which one member of an object occurs twice (with different values; once with its name spelt with
+/// an escape): no tree can hold such a document, so only the channels that read TEXT are compared on them
+pub fn duplicate_member_texts(text: &str) -> Vec<String> {
+    let v: Value = match serde_json::from_str(text) {
+        Ok(v) => v,
+        Err(_) => return vec![],
+    };
+    let mut out = vec![];
+    let alt = |x: &Value| match x {
+        Value::String(_) => json!("dup"),
+        Value::Number(_) => json!(7),
+        Value::Array(_) => json!([]),
+        Value::Object(_) => json!({}),
+        _ => json!(0),
+    };
+    // root object, and the object under "signed" if there is one
+    for ptr in ["", "/signed"] {
+        if let Some(Value::Object(o)) = v.pointer(ptr) {
+            for (k, x) in o.iter().take(6) {
+                for escaped in [false, true] {
+                    let name = if escaped && !k.is_empty() {
+                        let c = k.chars().next().unwrap();
+                        format!("\"\\u{:04x}{}\"", c as u32, &serde_json::to_string(&k[c.len_utf8()..]).unwrap().trim_matches('"'))
+                    } else {
+                        serde_json::to_string(k).unwrap()
+                    };
+                    // the duplicate goes in front of the object's own members
+                    let mut o2 = String::from("{");
+                    o2.push_str(&format!("{}:{},", name, alt(x)));
+                    o2.push_str(&Value::Object(o.clone()).to_string()[1..]);
+                    let whole = if ptr.is_empty() {
+                        o2
+                    } else {
+                        let mut root = v.clone();
+                        root["signed"] = json!("@@SIGNED@@");
+                        root.to_string().replace("\"@@SIGNED@@\"", &o2)
+                    };
+                    out.push(whole);
+                }
+            }
+        }
+    }
+    out
+}
+
+fn channels_x<T: DeserializeOwned + PartialEq + Debug>(text: &str, extra: ExtraChannel<T>) -> (bool, Option<String>, Option<T>) {
     let base: Result<Result<T, String>, String> = parse_via(text, "str");
     let base_ok = matches!(&base, Ok(Ok(_)));
     let mut detail: Option<String> = None;
@@ -77,6 +128,49 @@ fn channels<T: DeserializeOwned + PartialEq + Debug>(text: &str) -> (bool, Optio
                 agree = false;
                 detail = Some(format!("channel {ch} spelling {sp}: base accepted={base_ok}, this={}",
                     match &r { Ok(Ok(_)) => "accepted".to_string(), Ok(Err(e)) => format!("rejected: {e}"), Err(p) => format!("panic: {p}") }));
+            }
+        }
+    }
+    // the extra channel of this document type, on every spelling
+    if let Some((name, f)) = extra {
+        for sp in SPELLINGS {
+            let t = respell(text, sp);
+            let reference: Result<Result<T, String>, String> = parse_via(&t, "str");
+            let r = f(&t);
+            let same = match (&reference, &r) {
+                (Ok(Ok(a)), Ok(Ok(b))) => a == b,
+                (Ok(Err(_)), Ok(Err(_))) => true,
+                _ => false,
+            };
+            if !same && agree {
+                agree = false;
+                detail = Some(format!("channel {name} spelling {sp} differs from str"));
+            }
+        }
+    }
+    // repeated members: the text channels (and the extra one) must agree with str
+    if agree {
+        for t in duplicate_member_texts(text) {
+            let reference: Result<Result<T, String>, String> = parse_via(&t, "str");
+            let mut results: Vec<(String, Result<Result<T, String>, String>)> = vec![];
+            for ch in ["slice", "reader", "json_slice", "json_reader", "jsonpretty_reader"] {
+                results.push((ch.to_string(), parse_via(&t, ch)));
+            }
+            if let Some((name, f)) = extra {
+                results.push((name.to_string(), f(&t)));
+            }
+            for (ch, r) in results {
+                let same = match (&reference, &r) {
+                    (Ok(Ok(a)), Ok(Ok(b))) => a == b,
+                    (Ok(Err(_)), Ok(Err(_))) => true,
+                    _ => false,
+                };
+                if !same && agree {
+                    agree = false;
+                    detail = Some(format!("repeated member, channel {ch}: str {} / this {} / text {}",
+                        if matches!(reference, Ok(Ok(_))) { "accepted" } else { "rejected" },
+                        if matches!(r, Ok(Ok(_))) { "accepted" } else { "rejected" }, t.chars().take(200).collect::<String>()));
+                }
             }
         }
     }
@@ -449,7 +543,8 @@ impl Ctx {
         };
         // C17 on block and wrapper
         let (a1, c1, _) = channels::<Metablock>(&serde_json::to_string(&block).unwrap());
-        let (a2, c2, _) = channels::<MetadataWrapper>(&serde_json::to_string(&meta).unwrap());
+        let tfb = |t: &str| guarded(|| MetadataWrapper::try_from_bytes(t.as_bytes()).map_err(|e| e.to_string()));
+        let (a2, c2, _) = channels_x::<MetadataWrapper>(&serde_json::to_string(&meta).unwrap(), Some(("try_from_bytes", &tfb)));
         let (a3, c3) = match &meta {
             MetadataWrapper::Link(l) => {
                 let (a, c, _) = channels::<in_toto::models::LinkMetadata>(&serde_json::to_string(l).unwrap());
@@ -469,6 +564,24 @@ impl Ctx {
             let again = serde_json::to_value(&back).unwrap();
             if again != crafted {
                 parse_alters = Some("parse altered a field of an accepted document (crafted command arguments)".to_string());
+            }
+        }
+        // ... and the expiry: the same instant written in other RFC 3339 notations (offsets, lower case) must be
+        // read as THAT instant (the text is re-written in the canonical notation, the instant may not move)
+        if crafted["expires"].is_string() && parse_alters.is_none() {
+            let want = chrono::DateTime::parse_from_rfc3339(crafted["expires"].as_str().unwrap()).map(|t| t.with_timezone(&chrono::Utc));
+            if let Ok(want) = want {
+                for fmt in ["+00:00", "+02:00", "-07:30", "+14:00", "+05:45", "lower"] {
+                    let mut c2 = crafted.clone();
+                    c2["expires"] = json!(crate::verify::spell_instant(want, fmt));
+                    if let Ok(Ok(back)) = parse_via::<MetadataWrapper>(&c2.to_string(), "str") {
+                        let again = serde_json::to_value(&back).unwrap();
+                        let got = again["expires"].as_str().and_then(|t| chrono::DateTime::parse_from_rfc3339(t).ok()).map(|t| t.with_timezone(&chrono::Utc));
+                        if got != Some(want) {
+                            parse_alters = Some(format!("expiry written as {} was read as {:?}", c2["expires"], again["expires"]));
+                        }
+                    }
+                }
             }
         }
         // the auto-detecting byte parser must agree with the typed one
